@@ -35,7 +35,7 @@ def install(reg, src):
         return x.envlink[1]
 
     # ---- compile_hessian (C17): H(x)[i][j] = d2 den / dV_i dV_j at doubly regular points; symmetric by construction
-    @reg.contract(f"{AD}:compile_hessian", props=["C17", "C09"],
+    @reg.contract(f"{AD}:compile_hessian", props=["C17", "C09", "C12"],
                   bounded="diagonal shortcuts and the upper-triangle mirroring loop are not yet under proof; the symbolic entries "
                           "come from compute_hessian = gradient(gradient(e, V_i), V_j), both steps proved (C02); bounded stand-in")
     def _(c):
@@ -156,7 +156,50 @@ def install_c19(reg, src):
                 return SBool(pred(v.cls))
             raise Unsupported(f"np.{name} of an untracked value")
         return f
-    reg.xarr_hooks = {"max": lambda ip, a, kw: x_max(ip, a, kw, +1), "min": lambda ip, a, kw: x_max(ip, a, kw, -1), "sum": x_sum,
+    def x_clip(ip, a, kw):
+        """np.clip(x, lo, hi) with finite scalar bounds over the extended reals: NaN stays NaN, +Inf -> hi, -Inf -> lo,
+        finite entries are clamped into [lo, hi]"""
+        v = a[0]
+        lo = a[1] if len(a) > 1 else kw.get("a_min")
+        hi = a[2] if len(a) > 2 else kw.get("a_max")
+        if not isinstance(v, XArr) or lo is None or hi is None or isinstance(lo, (XArr, SArr, SSeq)) or isinstance(hi, (XArr, SArr, SSeq)):
+            raise Unsupported("np.clip outside the extended-real model")
+        lo_, hi_ = real_term(lo), real_term(hi)
+        cls = sym.fresh("clip_cls", ClsArr)
+        val = sym.fresh("clip_val", sym.RealArr)
+        from .seqtheory import seqs, _once
+
+        def pw(k):
+            if _once(ip, f"xclip:{cls}:{k}"):
+                c0 = z3.Select(v.cls, k)
+                x0 = z3.Select(v.val, k)
+                ip.path.assume(z3.Select(cls, k) == z3.If(c0 == 1, 1, 0))
+                ip.path.assume(z3.Select(val, k) == z3.If(c0 == 0, sym.zmin(sym.zmax(x0, lo_), hi_), z3.If(c0 == 2, hi_, z3.If(c0 == 3, lo_, x0))))
+        seqs(ip).pointwise.append(pw)
+        return XArr(cls, val, v.n)
+
+    def x_where(ip, a, kw):
+        """np.where(mask(x), scalar, y): entry k is the scalar where the mask holds, y[k] elsewhere"""
+        if len(a) != 3 or kw:
+            raise Unsupported("np.where form outside the extended-real model")
+        m, x, y = a
+        if not (isinstance(m, SpecFn) and m.meta.get("xmask") is not None and isinstance(y, XArr)) or isinstance(x, (XArr, SArr, SSeq)):
+            raise Unsupported("np.where form outside the extended-real model")
+        xa, pred = m.meta["xmask"]
+        xs = real_term(x)
+        cls = sym.fresh("where_cls", ClsArr)
+        val = sym.fresh("where_val", sym.RealArr)
+        from .seqtheory import seqs, _once
+
+        def pw(k):
+            if _once(ip, f"xwhere:{cls}:{k}"):
+                hit = pred(z3.Select(xa.cls, k))
+                ip.path.assume(z3.Select(cls, k) == z3.If(hit, 0, z3.Select(y.cls, k)))
+                ip.path.assume(z3.Select(val, k) == z3.If(hit, xs, z3.Select(y.val, k)))
+        seqs(ip).pointwise.append(pw)
+        return XArr(cls, val, y.n)
+
+    reg.xarr_hooks = {"clip": x_clip, "where": x_where, "max": lambda ip, a, kw: x_max(ip, a, kw, +1), "min": lambda ip, a, kw: x_max(ip, a, kw, -1), "sum": x_sum,
                       "size": x_size, "any": x_any, "isnan": x_mask("isnan", lambda c_: c_ == 1),
                       "isinf": x_mask("isinf", lambda c_: z3.Or(c_ == 2, c_ == 3))}
     _old_isfinite = isfinite_hook
@@ -200,6 +243,19 @@ def install_c19(reg, src):
                     z3.Implies(z3.And(inr, c0 == 2), rv == sym.rv(1e16)),                            # +Inf -> +1e16
                     z3.Implies(z3.And(inr, c0 == 3), rv == sym.rv(-1e16))]                           # -Inf -> -1e16
         c.ensures("finite / unchanged / NaN->0 / +-Inf->+-1e16", post)
+
+    def sanitize_search(eng, ob, oid, seed):
+        """native search for a failing array: every mix of the four entry classes, magnitudes around the clamp value"""
+        import itertools
+        vals = ["nan", "inf", "-inf", 0.0, -2.5, 3e15, 1e16, 2.35e17, -4e18, 1e-300]
+        pool = [{"args": [[v]]} for v in vals]
+        pool += [{"args": [list(p_)]} for p_ in itertools.product(vals, repeat=2)]
+        pool += [{"args": [list(p_)]} for p_ in itertools.product(["nan", "inf", "-inf", 2.35e17, -1.0], repeat=3)]
+        pool += [{"args": [["nan", 1.0, "inf", -4e18]], "shape": [2, 2]}, {"args": [[]]}]
+        return {"mode": "search", "family": "sanitize", "fn": f"{CP}:_sanitize_derivatives", "clause": oid.split(" / ")[-1],
+                "pool": pool, "seed": seed, "points": 1}
+    if hasattr(reg, "native_searches"):
+        reg.native_searches[f"{CP}:_sanitize_derivatives"] = sanitize_search
 
     # ---- every derivative closure returns either a sanitised array or a finite-preserving expression of its input
     FINITE_CALLS = {"np.sin", "np.cos", "np.sinh", "np.cosh", "np.tanh", "np.sign", "np.exp", "np.zeros", "np.ones", "np.diag",
